@@ -91,8 +91,12 @@ def json_numpy_or_set_obj_hook(
     """
     if isinstance(dct, dict) and '_is_numpy_array' in dct:
         if dct['_is_numpy_array'] is True:
-            data = dct['data']
-            return np.array(data)
+            # Restore the type and the shape too (they cannot be inferred
+            # from the data of an empty multi-dimensional array)
+            data = np.array(dct['data'], dtype=dct.get('dtype'))
+            if 'shape' in dct:
+                data = data.reshape(dct['shape'])
+            return data
 
         raise ValueError(  # pragma: no cover
             'Json representation contains the "_is_numpy_array" key '
